@@ -201,8 +201,22 @@ def check_pins(pin_mode=False):
         w = want.get(what)
         if w is None:
             raise GenError("%s: no pinned control-flow signature" % what)
-        if w == json.loads(json.dumps(sig)):
+        now = json.loads(json.dumps(sig))
+        if w == now:
             continue
+        if [m_[0] for m_ in w["markers"]] != [m_[0] for m_ in now["markers"]]:
+            # the ORDER (or the set) of the steps changed: that is what the regenerated table shows to the Lean
+            # obligations, which decide it; only the order-independent part of the signature is compared here
+            def loose(x):
+                return {"markers": sorted(map(json.dumps, x["markers"])), "exits": sorted(json.dumps(e[:2]) for e in x["exits"]),
+                        "error_exits_between_markers": sum(x["error_exits_between_markers"])}
+            lw, ln = loose(w), loose(now)
+            common = set(m_[0] for m_ in w["markers"]) & set(m_[0] for m_ in now["markers"])
+            lw["markers"] = [m_ for m_ in lw["markers"] if json.loads(m_)[0] in common]
+            ln["markers"] = [m_ for m_ in ln["markers"] if json.loads(m_)[0] in common]
+            if lw == ln:
+                continue
+            w, sig = lw, ln
         for key in ("markers", "exits", "error_exits_between_markers"):
             a, b = w[key], json.loads(json.dumps(sig[key]))
             if a != b:
@@ -374,6 +388,17 @@ def gen_steps():
     if "check_meta!(try_meta)" not in mt or "check_meta!(try_old_meta)" not in mt:
         raise GenError("DBInner::meta: slots must be read through try_meta / try_old_meta (page type checked, not asserted)")
 
+    # the locks `meta()` itself takes (it is called inside the reader-list critical section of `Tx::new` and
+    # inside the publication guard of `write_data`): part of the lock programs of the C09 model
+    use = {("data", "lock"): "data", ("mmap_lock", "read"): "mapRead", ("mmap_lock", "write"): "mapWrite",
+           ("freelist", "lock"): "freelist", ("open_ro_txs", "lock"): "readers", ("file", "lock"): "file"}
+    meta_locks = []
+    for m in re.finditer(r"\.(file|mmap_lock|open_ro_txs|data|freelist)\s*\.\s*(lock|read|write|try_lock|try_read|try_write)\(\)", mt):
+        k = (m.group(1), m.group(2))
+        if k not in use:
+            raise GenError("DBInner::meta: lock use %s.%s() is not one the lock model knows" % k)
+        meta_locks.append(use[k])
+
     def lst(xs):
         return "[" + ", ".join("." + x for x in xs) + "]"
 
@@ -393,7 +418,10 @@ def gen_steps():
            "def openOuter : List Jamm.OpenStep := %s" % lst(open_outer),
            "def initSteps : List Jamm.InitStep := %s" % lst(init),
            "def openInner : List Jamm.OpenInnerStep := %s" % lst(open_inner), "",
+           "/-- the locks `DBInner::meta()` takes, in source order -/",
+           "def metaLocks : List Jamm.LockUse := %s" % lst(meta_locks), "",
            "end Jamm.Gen", ""]
+    check_pins("--pin" in sys.argv)
     write_if_changed("Steps.lean", "\n".join(txt))
 
 
@@ -486,6 +514,20 @@ def gen_sites():
                 fl_writers.append("%s:%s" % (f, name))
             if re.search(INNER_MUTATORS, own):
                 mut_callers.append("%s:%s" % (f, name))
+    # every acquisition of one of the five locks of DBInner, by function, with multiplicity and in source order:
+    # the lock model (Jamm/Model/LockOrder.lean) maps STEPS to lock actions by hand; this table pins that no
+    # function takes a lock the mapping does not know about (e.g. `meta()` taking the map read lock as well)
+    lock_sites = []
+    for f in files:
+        text = strip_comments(no_test(src(f)))
+        fns = all_fns(text)
+        for name, body, _ in fns:
+            inner = [b for n, b, _ in fns if b != body and b in body]
+            own = body
+            for b in inner:
+                own = own.replace(b, "")
+            for m in re.finditer(r"\.(file|mmap_lock|open_ro_txs|data|freelist)\s*\.\s*(lock|read|write|try_lock|try_read|try_write)\(\)", own):
+                lock_sites.append("%s:%s:%s.%s" % (f, name, m.group(1), m.group(2)))
     file_mut = sorted(set(file_mut))
     fl_writers = sorted(set(fl_writers))
     mut_callers = sorted(set(mut_callers))
@@ -523,6 +565,8 @@ def gen_sites():
             "def fileMutators : List String := [%s]" % ", ".join(q(x) for x in file_mut), "",
             "/-- every function (any file, any impl: Cursor, Range, Buckets, DB, ... included) that calls an inner mutator: tree edits, rebalance / spill, page release / allocation, the commit writer -/",
             "def mutatorCallSites : List String := [%s]" % ", ".join(q(x) for x in mut_callers), "",
+            "/-- every acquisition of one of the five locks (file, mmap_lock, open_ro_txs, data, freelist): file:function:lock.mode, in source order -/",
+            "def lockSites : List String := [%s]" % ", ".join(q(x) for x in lock_sites), "",
             "/-- functions that assign the shared free list -/",
             "def sharedFreelistWriters : List String := [%s]" % ", ".join(q(x) for x in fl_writers), "",
             "end Jamm.Gen", ""]
@@ -531,7 +575,6 @@ def gen_sites():
 
 def main():
     gen_steps()
-    check_pins("--pin" in sys.argv)
     gen_sites()
 
 
